@@ -31,6 +31,34 @@ macro_rules! with_unit {
     };
 }
 
+/// History independence (seed C17-4: a memo of the last chrono conversion keyed by the raw tick count and shared by
+/// all units).  Every other call converts the same raw value at the three OTHER units first (the last one differs
+/// with x), through a rotating choice of gateway operation; the model is stateless, so the case that follows must
+/// still agree with it.
+pub fn prime(x: i64, u: usize) {
+    use std::sync::atomic::{AtomicUsize, Ordering};
+    static N: AtomicUsize = AtomicUsize::new(0);
+    let n = N.fetch_add(1, Ordering::Relaxed);
+    if n % 2 == 1 {
+        return;
+    }
+    let rot = (x.rem_euclid(3)) as usize;
+    for k in 0..3 {
+        let v = (u + 1 + (k + rot) % 3) % 4;
+        let op = (n / 2 + k) % 3;
+        let _ = guarded(AssertUnwindSafe(|| {
+            with_unit!(v, V => {
+                let d = DateTime::<V>::new(x);
+                match op {
+                    0 => { let _ = d.as_cr(); }
+                    1 => { let _ = d - TimeDelta::parse("1h").unwrap(); }
+                    _ => { let _ = d.strftime(None); }
+                }
+            })
+        }));
+    }
+}
+
 /// one guarded evaluation -> cells (a panic becomes one Panic cell)
 pub fn g<R>(f: impl FnOnce() -> R, enc: impl FnOnce(R) -> Vec<Cell>) -> Vec<Cell> {
     match guarded(AssertUnwindSafe(f)) {
